@@ -1528,7 +1528,8 @@ impl<'tcx> Interp<'tcx> {
                             };
                             if let Some((vbits, c)) = pick(&l, &r).or_else(|| pick(&r, &l)) {
                                 let rendered = Self::render_bits(st, &vbits);
-                                let sym = Self::sym(st, &format!("eq:{}=={}", rendered, c));
+                                // (the name ends up inside rendered bit maps: keep it free of their separators)
+                                let sym = Self::sym(st, &format!("eq:{}=={}", rendered.replace(',', ";").replace('*', "x").replace('@', "#"), c));
                                 if !st.eqpreds.iter().any(|p| p.0 == sym) {
                                     st.eqpreds.push((sym, vbits, c));
                                 }
